@@ -333,6 +333,7 @@ func runWorker(env []string, wallLimit time.Duration) workerExit {
 	cmd.Dir = scratchDir
 	var mu sync.Mutex
 	var tailBuf []string
+	var crashHead []string
 	lastBegin := ""
 	done := false
 	pr, pw := io.Pipe()
@@ -353,6 +354,12 @@ func runWorker(env []string, wallLimit time.Duration) workerExit {
 			} else if line == "DONE" {
 				done = true
 			} else {
+				if crashHead == nil && (strings.HasPrefix(line, "fatal error:") || strings.HasPrefix(line, "panic:") || strings.HasPrefix(line, "unexpected fault") || strings.HasPrefix(line, "SIGQUIT")) {
+					crashHead = []string{}
+				}
+				if crashHead != nil && len(crashHead) < 60 {
+					crashHead = append(crashHead, line)
+				}
 				tailBuf = append(tailBuf, line)
 				if len(tailBuf) > 200 {
 					tailBuf = tailBuf[len(tailBuf)-120:]
@@ -377,7 +384,11 @@ func runWorker(env []string, wallLimit time.Duration) workerExit {
 	wg.Wait()
 	mu.Lock()
 	defer mu.Unlock()
-	return workerExit{err: err, stderr: strings.Join(tailBuf, "\n"), lastBegin: lastBegin, done: done, timedOut: timedOut}
+	text := strings.Join(tailBuf, "\n")
+	if crashHead != nil {
+		text = strings.Join(crashHead, "\n")
+	}
+	return workerExit{err: err, stderr: text, lastBegin: lastBegin, done: done, timedOut: timedOut}
 }
 
 // ---------------------------------------------------------------- known findings
@@ -477,33 +488,35 @@ func baseSeed() uint64 {
 }
 
 type agg struct {
-	mu         sync.Mutex
-	runs       int
-	execs      int
-	verdicts   map[string]int
-	classes    map[string]int
-	hashes     map[uint64]struct{}
-	schedules  map[uint64]struct{}
-	sketch     map[uint64]struct{}
-	strategies map[string]int
-	faults     map[string]int
-	probes     map[string]int
-	extra      map[string]int64
-	ticks      int64
-	switches   int64
-	fakeNs     int64
-	lockWaits  int64
-	realBlocks int64
-	uninstr    int64
-	selects    int64
-	mapRanges  int64
-	mapUnc     int64
-	maxReady   int
-	samples    []json.RawMessage
-	violations []runLine
-	harnessErr []runLine
-	wallUs     int64
-	canary     map[int][3]uint64
+	mu            sync.Mutex
+	runs          int
+	execs         int
+	verdicts      map[string]int
+	classes       map[string]int
+	hashes        map[uint64]struct{}
+	schedules     map[uint64]struct{}
+	sketch        map[uint64]struct{}
+	strategies    map[string]int
+	faults        map[string]int
+	probes        map[string]int
+	extra         map[string]int64
+	ticks         int64
+	switches      int64
+	fakeNs        int64
+	lockWaits     int64
+	realBlocks    int64
+	uninstr       int64
+	selects       int64
+	mapRanges     int64
+	mapUnc        int64
+	maxReady      int
+	samples       []json.RawMessage
+	violations    []runLine
+	harnessErr    []runLine
+	wallUs        int64
+	canary        map[int][3]uint64
+	rejected      int
+	firstRejected string
 }
 
 func newAgg() *agg {
@@ -582,7 +595,14 @@ func (a *agg) addFile(path string) (recycleNext int, ok bool) {
 		case "violation":
 			a.violations = append(a.violations, l)
 		case "harness_error":
-			a.harnessErr = append(a.harnessErr, l)
+			if v.Class == "workload_rejected" {
+				a.rejected++
+				if a.firstRejected == "" {
+					a.firstRejected = v.Detail
+				}
+			} else {
+				a.harnessErr = append(a.harnessErr, l)
+			}
 		case "ok":
 			if l.Case != nil && len(a.samples) < 3 {
 				s := map[string]any{"seed": l.Seed, "case": l.Case, "verdict": v.Verdict}
@@ -671,7 +691,7 @@ func runCheck(prop, tier string, budgetMs, nWorkers int) int {
 				}
 				// died: attribute to the last BEGIN line
 				deathMu.Lock()
-				deaths = append(deaths, fmt.Sprintf("%s\n%s", ex.lastBegin, tail(ex.stderr, 40)))
+				deaths = append(deaths, fmt.Sprintf("%s\n%s", ex.lastBegin, firstLines(ex.stderr, 60)))
 				deathMu.Unlock()
 				// resume after the run that killed the worker
 				f := strings.Fields(ex.lastBegin)
@@ -724,7 +744,7 @@ func runCheck(prop, tier string, budgetMs, nWorkers int) int {
 			"SIM_BUDGET_MS=120000", "SIM_OUT="+out)
 		ex := runWorker(env, 5*time.Minute)
 		if !ex.done && !ex.timedOut {
-			confirmedDeaths = append(confirmedDeaths, deathCase{i, tail(ex.stderr, 60)})
+			confirmedDeaths = append(confirmedDeaths, deathCase{i, firstLines(ex.stderr, 60)})
 		}
 	}
 
@@ -770,7 +790,7 @@ func runCheck(prop, tier string, budgetMs, nWorkers int) int {
 		path := filepath.Join(verifDir, "replays", fmt.Sprintf("%s-death-%d-%d.json", prop, base, d.i))
 		os.WriteFile(path, b, 0o644)
 		vioLines = append(vioLines, fmt.Sprintf("VIOLATION property=%s replay=%s", prop, path))
-		fmt.Fprintf(os.Stderr, "--- worker process died running %s case %d:\n%s\n", prop, d.i, tail(d.detail, 25))
+		fmt.Fprintf(os.Stderr, "--- worker process died running %s case %d:\n%s\n", prop, d.i, firstLines(d.detail, 25))
 		exit = 1
 	}
 	if stalled && exit == 0 {
@@ -778,6 +798,10 @@ func runCheck(prop, tier string, budgetMs, nWorkers int) int {
 	}
 	if len(a.harnessErr) > 0 && exit == 0 {
 		fmt.Fprintf(os.Stderr, "vcheck: %d harness errors, first: %s\n", len(a.harnessErr), firstLines(a.harnessErr[0].V.Detail, 30))
+		exit = 2
+	}
+	if a.rejected*4 > a.runs && exit == 0 {
+		fmt.Fprintf(os.Stderr, "vcheck: %d of %d generated workloads were rejected by the type checker, first: %s\n", a.rejected, a.runs, firstLines(a.firstRejected, 20))
 		exit = 2
 	}
 	if a.runs == 0 && exit == 0 {
